@@ -34,7 +34,8 @@ Cand(mm, nm) ==
        [] nm = "val_setstr" -> {A(nm, "", h, "", "zz", 0) : h \in RangeOf(ValH)}
        [] nm = "store"      -> {A("store", c, h, "", n, 0) : c \in cs, h \in RangeOf(ValH), n \in RangeOf(ApiNames)}
        [] nm = "load"       -> {A("load", c, fl, "", n, 0) : c \in cs, n \in LoadNames}
-       [] nm = "read_lib"   -> {A("read_lib", "", h, "", "", 0) : h \in RangeOf(LibH)}
+       [] nm \in {"read_lib", "lib_null"} -> {A(nm, "", h, "", "", 0) : h \in RangeOf(LibH)}
+       [] nm = "lib_setstr" -> {A(nm, "", h, "", "zz", 0) : h \in RangeOf(LibH)}
        [] nm = "parse_exec" -> {A("parse_exec", c, fx, "", "", p) : c \in cs, p \in DOMAIN Prog}
        [] nm = "run"        -> {A("run", mm.exe[h].c, h, "", "", 0) : h \in RangeOf(ExeH)}
        [] nm = "run2"       -> {A("run2", "c1", h, "", "", 0) : h \in RangeOf(ExeH)}
@@ -45,7 +46,7 @@ Cand(mm, nm) ==
        [] nm = "drop"       -> {A("drop", c, fv, "", "", 0) : c \in cs}
        [] OTHER -> {}
 ActNames == {"ctx_clone", "ctx_free", "ctx_purge", "purge_wm", "reset_stop", "break", "val_new", "val_free", "val_null",
-             "read_val", "val_setstr", "store", "load", "read_lib", "parse_exec", "run", "run2", "exec_free",
+             "read_val", "val_setstr", "store", "load", "read_lib", "lib_setstr", "lib_null", "parse_exec", "run", "run2", "exec_free",
              "parse_expr", "eval", "expr_free", "drop"}
 Acts(mm, nm) == {a \in Cand(mm, nm) : Pre(mm, a)}
 
@@ -65,7 +66,7 @@ StepOf(a) ==
    text |-> IF a.a = "parse_exec" THEN ProgText(a.p) ELSE IF a.a = "parse_expr" THEN ExprText(a.p) ELSE "",
    kind |-> IF a.a = "val_new" THEN ValPool[a.p].kind ELSE "",
    iv |-> IF a.a = "val_new" THEN ValPool[a.p].iv ELSE 0,
-   sv |-> IF a.a = "val_new" THEN ValPool[a.p].sv ELSE IF a.a = "val_setstr" THEN a.n ELSE "",
+   sv |-> IF a.a = "val_new" THEN ValPool[a.p].sv ELSE IF a.a \in {"val_setstr", "lib_setstr"} THEN a.n ELSE "",
    bv |-> IF a.a = "val_new" THEN ValPool[a.p].bv ELSE <<>>]
 Scenario(h, mm) == [prop |-> "C15", key |-> "walk", nwalk |-> Len(h),
                     steps |-> <<StepOf(A("ctx_new", "c0", "", "", "", 0))>> \o [j \in 1..(Len(h) + Len(Close(mm))) |-> StepOf((h \o Close(mm))[j])]]
@@ -75,15 +76,25 @@ Seed1 == <<A("val_new", "", "v1", "", "", 1), A("store", "c0", "v1", "", "X", 0)
            A("val_new", "", "v1", "", "", 5), A("store", "c0", "v1", "", "S", 0), A("val_free", "", "v1", "", "", 0)>>
 Seed2 == Seed1 \o <<A("val_new", "", "v1", "", "", 7), A("store", "c0", "v1", "", "R", 0), A("val_free", "", "v1", "", "", 0),
                     A("parse_exec", "c0", "x1", "", "", 1)>>
-Seeds == {<<>>, Seed1, Seed2}
+Seed3 == Seed1 \o <<A("parse_exec", "c0", "x1", "", "", 13), A("parse_exec", "c0", "x2", "", "", 14)>>
+\* F declared, a clone taken, F redeclared by a text compiled afterwards and run in the clone, a caller compiled in the clone
+Seed4 == Seed1 \o <<A("parse_exec", "c0", "x1", "", "", 13), A("ctx_clone", "c1", "", "c0", "", 0), A("parse_exec", "c0", "x2", "", "", 20),
+                    A("run2", "c1", "x2", "", "", 0), A("parse_expr", "c1", "e1", "", "", 11)>>
+\* the host updates a string variable in place through the pointer bloc_ctx_load_variable gave it; a text reading S is compiled
+Seed5 == Seed1 \o <<A("parse_exec", "c0", "x1", "", "", 12), A("load", "c0", "p1", "", "S", 0), A("lib_setstr", "", "p1", "", "zz", 0)>>
+\* F declared twice (two bodies), then a text declaring another function is rejected; callers are compiled afterwards
+Seed6 == Seed3 \o <<A("exec_free", "", "x2", "", "", 0), A("parse_exec", "c0", "x2", "", "", 31), A("parse_expr", "c0", "e1", "", "", 11)>>
+Seed7 == Seed3 \o <<A("exec_free", "", "x2", "", "", 0), A("parse_exec", "c0", "x2", "", "", 31), A("parse_expr", "c0", "e1", "", "", 12)>>
+Seeds == {<<>>, Seed1, Seed2, Seed3, Seed4, Seed5, Seed6, Seed7}
 
 Init == \E s \in Seeds : hist = s /\ m = Fold(M0, s) /\ nw = 0
+InitMC == \E s \in {<<>>, Seed2, Seed4} : hist = s /\ m = Fold(M0, s) /\ nw = 0
 
 \* simulation step: draw the kind of call, then its arguments
 \* weights of the kinds of call (calls that are always enabled would otherwise crowd out the rest)
 Weighted == <<"ctx_clone", "ctx_clone", "ctx_free", "ctx_purge", "purge_wm", "reset_stop", "reset_stop", "break",
               "val_new", "val_new", "val_new", "val_free", "val_null", "read_val", "read_val", "val_setstr",
-              "store", "store", "store", "load", "load", "load", "read_lib", "read_lib", "read_lib", "read_lib",
+              "store", "store", "store", "load", "load", "load", "read_lib", "read_lib", "read_lib", "read_lib", "lib_setstr", "lib_setstr", "lib_setstr", "lib_null",
               "parse_exec", "parse_exec", "parse_exec", "parse_exec", "parse_exec", "run", "run", "run", "run", "run", "run",
               "run2", "run2", "run2", "run2", "exec_free", "parse_expr", "parse_expr", "parse_expr", "eval", "eval", "eval", "eval", "eval",
               "expr_free", "drop", "drop", "drop">>
